@@ -87,11 +87,12 @@ PLANS = {
                "non-trivial: a scan that wrote or removed the escalator taint (object diff of every PUT against the API copy), or met an already tainted node behind a lagging lister view",
                ["C15:taint-write", "C15:untaint-write", "C15:lagging-view-already-tainted"]),
     "C20": ctl(["reap"], ["reap", "updown"],
-               [D("mix", odd=True, lag=True, faults=45), D("reap", odd=True, faults=45)],
-               [D("mix", n=60, steps=100, procs=8, odd=True, lag=True, faults=45), D("reap", n=60, steps=100, procs=8, odd=True, faults=45)],
+               [D("mix", odd=True, lag=True, faults=45, enum=15), D("reap", odd=True, faults=45, enum=15), D("lock", odd=True, faults=30, enum=20)],
+               [D("mix", n=60, steps=100, procs=8, odd=True, lag=True, faults=45, enum=15, enum2=True), D("reap", n=60, steps=100, procs=8, odd=True, faults=45, enum=15, enum2=True),
+                D("lock", n=40, steps=100, procs=8, odd=True, faults=30, enum=20, enum2=True)],
                "non-trivial: a scan with injected API failures or odd objects (bad provider ids, zero / missing allocatable, unparsable / future taint values), incl. cloud look-ups after a cool-down",
                ["C20:faulty-scan", "C20:odd-provider-id", "C20:zero-or-missing-allocatable", "C20:unparsable-taint", "C20:future-taint",
-                "C20:cloud-lookups", "C20:zero-capacity-error"]),
+                "C20:cloud-lookups", "C20:zero-capacity-error", "C20:fault-describe_instance"]),
 }
 
 
@@ -187,5 +188,6 @@ PLANS["C12"] = ctl(["multi"], ["multi"],
                    "leaves the other group's outcomes unchanged) on every visited state; real code: scans of 2-3 group histories (targets of every call; later groups processed after a failure) "
                    "and twin runs of each history without the environment events of one group; non-trivial: a multi-group scan / a compared twin scan",
                    ["C12:multi-group", "C12:failure-before-last-group", "C12:default-group", "C12:twin-compared", "C12:twin-other-group-acts"])
+PLANS["C12"]["emit_rate"] = dict(quick=3, thorough=3)
 PLANS["C12"]["iso_drives"] = dict(quick=[D("mix", n=14, steps=80, procs=4)], thorough=[D("mix", n=60, steps=100, procs=8), D("reap", n=40, steps=100, procs=8)])
 PLANS["C11"]["families"] = dict(quick=["dry", "multidry"], thorough=["dry", "multidry"])
